@@ -417,3 +417,33 @@ def load_parser_module(run, file_suffix="svgbob/src/util.rs", module="parser"):
         elif ret == "bool" and len(ins) == 1 and (ins[0].get("ty") or "").replace(" ", "") == "char":
             preds[it["name"]] = it
     return Grammar(gfns, preds), mod, f
+
+
+def entry_grammar(prog, fn_suffix):
+    """name of the grammar function whose parser `fn_suffix` (e.g. util::parser::parse_css_legend) runs, following
+    direct calls inside the same module; None if it cannot be determined"""
+    import re
+    from .exprs import strip
+    from .mirlib import Expr, Program
+    start = [p for p in prog.bodies if p.endswith(fn_suffix)]
+    if len(start) != 1:
+        return None
+    mod = start[0].rsplit("::", 1)[0]
+    seen, work = set(), [start[0]]
+    while work:
+        q = work.pop()
+        if q in seen or q not in prog.bodies:
+            continue
+        seen.add(q)
+        ex = None
+        for _, t in prog.calls(q):
+            n = Program.callee_name(t)
+            if re.search(r"pom::parser::Parser::<'a, I, O>::parse$", n):
+                ex = ex or Expr(prog, q)
+                ge = strip(ex.operand(t["args"][0]))
+                if ge[0] == "call":
+                    return ge[1].split("::")[-1]
+            elif n.startswith(mod + "::") and "{closure" not in n:
+                work.append(n)
+    return None
+
